@@ -26,7 +26,7 @@ RULE = ("one case = module kind + matrix class/storage (ndarray, csc, csr) + sol
         "follows an earlier response of the same instance with a changed matrix or right-hand side, or a fallback")
 PROBES = ["second_response_changed_pattern", "second_response_same_matrix_new_rhs", "partition_from_free_only",
           "partition_from_prescribed_only", "adjoint_cycle_between_responses", "cholesky_fallback", "two_instances_interleaved",
-          "block_rhs", "complex_system", "dense_input", "prewrapped_lda", "lda_disabled", "decoupled_dofs"]
+          "block_rhs", "complex_system", "dense_input", "prewrapped_lda", "lda_disabled", "decoupled_dofs", "partition_indices_unsorted"]
 FAULT_KINDS = ["cholesky_fail_forced", "cholesky_fail_natural"]
 COMPONENTS = {"real": ["pymoto.LinSolve", "pymoto.Inverse", "pymoto.SystemOfEquations", "pymoto.StaticCondensation",
                        "pymoto.solvers (auto_determine_solver, LDAWrapper, direct solvers, CG)"],
@@ -83,7 +83,8 @@ def gen(rng, idx, tier):
     return dict(kind=kind, cplx=cplx, cls=cls, storage=storage, solver=solver, n=n, nobj=nobj, flags=flags, part=part,
                 pseed=int(rng.integers(1 << 30)), a0=int(rng.integers(1 << 30)), b0=int(rng.integers(1 << 30)),
                 scale0=float(rng.choice([1.0, 1.0, 1e-10, 1e5])),
-                k0=int(rng.choice([0, 0, 2])), ops=ops)
+                k0=int(rng.choice([0, 0, 2])), ops=ops, unsorted=bool(rng.random() < 0.4),
+                layout=str(rng.choice(["C", "C", "F", "T"])))
 
 
 def simplify(case):
@@ -158,6 +159,13 @@ class Inst:
             npres = max(1, n // 3)
             self.p = np.sort(rng.choice(n, size=npres, replace=False))
             self.f = np.setdiff1d(np.arange(n), self.p)
+            if case.get("unsorted"):
+                # dof sets in the order the user happens to have them: the values x_p / b_f follow that order
+                # (a set that is not handed over is the complement in ascending order)
+                if case["part"] in ("prescribed", "both"):
+                    self.p = rng.permutation(self.p)
+                if case["part"] in ("free", "both"):
+                    self.f = rng.permutation(self.f)
             if case["part"] in ("free", "both"):
                 kw["free"] = self.f
             if case["part"] in ("prescribed", "both"):
@@ -194,7 +202,9 @@ class Inst:
                 self.A = self.A.multiply(1.0 + 1e-6 * R).asformat(self.A.format)
             else:
                 self.A = self.A * (1.0 + 1e-6 * (R + R.T) / 2)
-        self.sA.state = self.A.copy()
+        # the signal gets its own array in the memory layout a caller may hold (C, Fortran-ordered, transposed view); self.A stays
+        # the oracle's private C-ordered copy
+        self.sA.state = G.as_layout(self.A.copy(), self.case.get("layout", "C")) if isinstance(self.A, np.ndarray) else self.A.copy()
 
     def set_b(self):
         n, k = self.n, self.k
@@ -241,6 +251,8 @@ def run(case):
         probe("lda_disabled")
     if case["kind"] == "SystemOfEquations":
         probe({"free": "partition_from_free_only", "prescribed": "partition_from_prescribed_only"}.get(case["part"], "partition_both"))
+        if case.get("unsorted"):
+            probe("partition_indices_unsorted")
     tol = 1e-6 if case["solver"] == "cg" else 1e-9
     detail = []
     for at, op in enumerate(case["ops"]):
